@@ -9,3 +9,13 @@ GHOST_ASSIGNS = 'vf_held, vf_n_acq_excl, vf_n_acq_shared, vf_n_rel, vf_n_block, 
 
 COUNTERS = ['vf_n_acq_excl', 'vf_n_acq_shared', 'vf_n_rel', 'vf_n_block', 'vf_n_timed', 'vf_n_try', 'vf_n_cvwait', 'vf_n_yield', 'vf_n_mutex_ops', 'vf_n_notify']
 CNT_OK = '(' + ' && '.join('%s >= 0 && %s <= VF_BIG' % (c, c) for c in COUNTERS) + ')'
+
+
+def CNT_R(k):
+    """precondition: ghost counters leave room for exact counting (k = head-room)"""
+    return '(' + ' && '.join('%s >= 0 && %s <= VF_BIG - %d' % (c, c, k) for c in COUNTERS) + ' && vf_held >= 0 && vf_held <= 1000)'
+
+
+def CNT_G(g):
+    """postcondition: counters grew by at most g"""
+    return '(' + ' && '.join('%s >= __CPROVER_old(%s) && %s <= __CPROVER_old(%s) + %d' % (c, c, c, c, g) for c in COUNTERS) + ' && vf_held >= 0 && vf_held <= 1001)'
